@@ -38,7 +38,10 @@ LEVEL_NOTE = ("floating-point rounding is not modelled (tolerance run, rel 1e-9)
               "the Earth are answered correctly by the real code (theorems carry no depth hypothesis), a zero direction "
               "returns 100*rho(r_e)*sqrt(R^2-|e|^2) without raising (outside the quantifier, model agrees), a chord not "
               "longer than one step returns 0 (C15_short_chord_zero; the extreme case of 'within the discretisation "
-              "error'), a step that is 0 / negative / NaN raises OverflowError / ValueError (oracle bad-step: never a "
+              "error'), the length-independence holds for direction lengths in about [1e-154, 1e154] only: beyond, the squares under/overflow "
+              "in np.linalg.norm and the vector is treated as the zero direction (observed 1.15e7 instead of 5.94e9) - "
+              "floating-point range, outside the claim; the scale oracle demands equality for 1e-150 <= k <= 1e150 and asserts "
+              "nothing beyond; a step that is 0 / negative / NaN raises OverflowError / ValueError (oracle bad-step: never a "
               "number), step=inf returns 0; hV of C15_trapz_bv_error is a hypothesis whose region the search samples with a "
               "numerically computed variation; C15_grows_with_dip_partial proves only "
               "that the chord length (= uniform-density column) grows strictly with dip, the layered case is left to "
@@ -91,6 +94,17 @@ def slant(earth, ep, d, step):
             return float(earth.slant_depth(ep, d, step)), None
     except Exception as e:      # noqa: BLE001 - any failure of the implementation is a finding
         return float("nan"), "%s: %s" % (type(e).__name__, str(e)[:200])
+
+
+EXCLUDED_REGIONS = [
+    "direction lengths outside about [1e-154, 1e154]: the squares under/overflow in np.linalg.norm and the vector is treated "
+    "as the zero direction (observed 1.15e7 instead of 5.94e9); floating-point range, outside the claim - the scale oracle "
+    "demands equality for 1e-150 <= k <= 1e150 and asserts nothing beyond",
+    "zero direction vector (not a direction on the sphere): the code returns 100*rho(r_e)*sqrt(R^2-|e|^2) without raising",
+    "steps that are 0, negative or NaN (must raise, oracle bad-step); step = inf returns 0",
+    "chords not longer than one step return 0 (C15_short_chord_zero): inside 'within the discretisation error of the step'",
+    "float32 endpoints: earth_radius + z is formed in single precision (0.5 m), not compared",
+]
 
 
 def models():
@@ -187,6 +201,7 @@ def bound_step(R, ep, d, step, maxnodes):
 
 # ------------------------------------------------------------------------------------------------
 def correspondence(run):
+    run.extra["excluded_regions"] = EXCLUDED_REGIONS
     ms = models()
     ok = True
     reqs, checks = [], []
@@ -601,6 +616,28 @@ def check_invariance(run, name, earth, ep, d, step, angle, k):
                        observed=[T, T3], what="slant depth depends on the length of the direction vector")
 
 
+SCALE_FACTORS = (1e-8, 1e-9, 1e-12, 1e-30, 1e-100, 1e-150, 1e8, 1e30, 1e100, 1e150)
+
+
+def check_scale_range(run, name, earth, ep, d, step, ks):
+    """"independent of the length of the direction vector" over many decades: k*u for a unit vector u and factors from
+    1e-150 to 1e150 (a NON-zero vector far below / above any would-be tolerance) must give the unit-vector result"""
+    u = [float(x) for x in unit(d)]
+    T = slant(earth, ep, u, step)[0]
+    crust = REF[name]["polys"][-1][0]
+    L = chord_length(REF[name]["R"], ep, u) or 0.0
+    n = n_nodes(L, step) if L > 0 else 0
+    h = L / (n - 1) if n >= 2 else 0.0
+    slack = h * crust * 100 / 2 * (1 + 1e-6) + 1e-9 * abs(T) + 1e-6      # the exit node may round either way
+    for k in ks:
+        Tk, err = slant(earth, ep, [k * x for x in u], step)
+        if err or not abs(T - Tk) <= slack:
+            run.fail_input("scale-range", {"model": name, "endpoint": list(ep), "direction": u, "step": step, "k": k},
+                           observed=err or [T, Tk], what="slant depth for the direction k*u (k = %g) differs from that for the "
+                                                         "unit vector u" % k)
+            return
+
+
 def check_dip_sweep(run, name, earth, ep, phi, step, dips):
     prev = None
     for dip in dips:
@@ -676,6 +713,14 @@ def search(run, deep):
             dips = sorted(rng.uniform(0.5, 90) for _ in range(10))
             run.case(("oracle-dip", name, tuple(ep)))
             check_dip_sweep(run, name, earth, ep, rng.uniform(0, 2 * math.pi), rng.choice([200.0, 500.0, 1000.0]), dips)
+        # direction length over 300 decades
+        for rep in range(3 * mult):
+            ep = [rng.uniform(-2e4, 2e4), rng.uniform(-2e4, 2e4), -rng.uniform(1, 3000)]
+            th = math.radians(rng.uniform(2, 90)); ph = rng.uniform(0, 2 * math.pi)
+            d = [math.cos(th) * math.cos(ph), math.cos(th) * math.sin(ph), -math.sin(th)]
+            ks = list(SCALE_FACTORS) + [10 ** rng.uniform(-150, 150) for _ in range(4)]
+            run.case(("oracle-scale-range", name, tuple(ep), tuple(d)))
+            check_scale_range(run, name, earth, ep, d, 500.0, ks)
         # steps that define no grid must be rejected; full-resolution chords (no cap on the node count) in the deep run
         for bad in (0.0, -500.0, float("nan")):
             ep = [rng.uniform(-2e4, 2e4), rng.uniform(-2e4, 2e4), -rng.uniform(1, 3000)]
@@ -704,6 +749,8 @@ def replay(run, data):
     k = data.get("kind")
     if k == "density":
         check_density(run, name, earth, [i["r"]])
+    elif k == "scale-range":
+        check_scale_range(run, name, earth, i["endpoint"], i["direction"], i["step"], [i["k"]])
     elif k == "bad-step":
         check_bad_step(run, name, earth, i["endpoint"], i["direction"], float(i["step"]))
     elif k == "arguments":
